@@ -112,7 +112,7 @@ def judge(case):
     x, y = C.lift_pair(case)
     kb_ = "%s,%s" % (ka, kb)
     res = C.run_inter(G.intersection, x, y, exp, "intersection(a,b)", mu, kb_)
-    C.run_inter(lambda p, q: p.intersection(q), x, y, exp, "a.intersection(b)", mu, kb_)
+    C.run_inter(lambda p, q: p.intersection(q), x, y, exp, "a.intersection(b)", mu, kb_, descs=None if fm else (a, b))
     if mu.viol is None and res is not None and not fm:
         _measures(res, exp, mu, kb_)
     _inner.finish(mu)
